@@ -36,6 +36,8 @@ def val_text(v):
         return '"' + v[2:] + '"'
     if v.startswith("a:"):
         return "<" + v[2:] + ">"
+    if v.startswith("m:"):
+        return v[2:]
     return v
 
 
